@@ -43,9 +43,11 @@ Inductive instr :=
 | IIssue (th : Z) | IPersistSend | IDoneSend             (* Pay: issue + putSendCheque *)
 | IRecvStore (p : Z) | IRecvMem (p : Z) | IDoneRecv (p : Z) (* ReceiveCheque *)
 | IRefresh                                               (* trafficInit (24 h refresh): trafficPeerChequeUpdate rebuilds the record from the store under the peer lock *)
-| IReadDiskRT | IRefreshLoc.                             (* a variant that reads the stored total BEFORE taking the lock (regression witness only) *)
+| IReadDiskRT | IRefreshLoc                              (* a variant that reads the stored total BEFORE taking the lock (regression witness only) *)
+| ICash                                                  (* cashChequeReceiptUpdate, receipt status 1: the chain now reports the last received cheque as transferred; the cached chain amounts are rewritten under the peer lock (trafficPeerChainUpdate); the four totals and their store keys are not touched *)
+| ICashBad.                                              (* a variant that writes the cashed amount under the served-total key (regression witness only) *)
 
-Inductive op := PutR (a : Z) | PutT (a : Z) | Pay (th : Z) | Recv (p : Z) | Refresh.
+Inductive op := PutR (a : Z) | PutT (a : Z) | Pay (th : Z) | Recv (p : Z) | Refresh | Cash.
 
 (** a region: (needs the peer lock?, instructions) *)
 Definition region := (bool * list instr)%type.
@@ -59,6 +61,7 @@ Definition compile (fixed : bool) (o : op) : list region :=
   | Pay th => [(true, [ILoadBal]); (true, [IIssue th; IPersistSend; IDoneSend])]
   | Recv p => [(true, [IRecvStore p; IRecvMem p; IDoneRecv p])]
   | Refresh => if fixed then [(true, [IRefresh])] else [(false, [IReadDiskRT]); (true, [IRefreshLoc])]
+  | Cash => [(true, [ICash])]
   end.
 
 Record thread := { cur : list instr; inlock : bool; todo : list region; loc : Z; flag : bool }.
@@ -77,6 +80,7 @@ Definition d_set_rT (d : dsk) v := {| s_rT := v; s_tT := s_tT d; lastSend := las
 Definition d_set_tT (d : dsk) v := {| s_rT := s_rT d; s_tT := v; lastSend := lastSend d; lastRecv := lastRecv d; cR := cR d; cT := cT d |}.
 Definition d_set_send (d : dsk) v := {| s_rT := s_rT d; s_tT := s_tT d; lastSend := v; lastRecv := lastRecv d; cR := cR d; cT := cT d |}.
 Definition d_set_recv (d : dsk) v := {| s_rT := s_rT d; s_tT := s_tT d; lastSend := lastSend d; lastRecv := v; cR := cR d; cT := cT d |}.
+Definition d_set_cT (d : dsk) v := {| s_rT := s_rT d; s_tT := s_tT d; lastSend := lastSend d; lastRecv := lastRecv d; cR := cR d; cT := v |}.
 Definition g_doneR (g : ghost) a := {| rT0 := rT0 g; tT0 := tT0 g; doneR := doneR g + a; doneT := doneT g; sentDone := sentDone g; recvDone := recvDone g; emitted := emitted g |}.
 Definition g_doneT (g : ghost) a := {| rT0 := rT0 g; tT0 := tT0 g; doneR := doneR g; doneT := doneT g + a; sentDone := sentDone g; recvDone := recvDone g; emitted := emitted g |}.
 Definition g_sent (g : ghost) v := {| rT0 := rT0 g; tT0 := tT0 g; doneR := doneR g; doneT := doneT g; sentDone := Z.max (sentDone g) v; recvDone := recvDone g; emitted := emitted g |}.
@@ -111,6 +115,8 @@ Definition exec_instr (i : instr) (m : fields) (d : dsk) (g : ghost) (l : Z) (f 
   | IRefresh => (restore d, d, g, l, f)
   | IReadDiskRT => (m, d, g, s_rT d, f)
   | IRefreshLoc => let r := restore d in (set_rT r (Z.max (rC r) l), d, g, l, f)
+  | ICash => (m, d_set_cT d (Z.max (cT d) (lastRecv d)), g, l, f)
+  | ICashBad => (m, d_set_tT (d_set_cT d (Z.max (cT d) (lastRecv d))) (tC m), g, l, f)
   end.
 
 Fixpoint set_nth {A} (l : list A) (n : nat) (x : A) : list A :=
@@ -179,6 +185,6 @@ Fixpoint run_epochs (fixed : bool) (d : dsk) (g : ghost) (es : list epoch) : dsk
 Definition fle (a b : fields) : Prop := rT a <= rT b /\ rC a <= rC b /\ tT a <= tT b /\ tC a <= tC b.
 
 Definition op_ok (o : op) : Prop :=
-  match o with PutR a | PutT a => 0 <= a | Pay th => 0 <= th | Recv _ | Refresh => True end.
+  match o with PutR a | PutT a => 0 <= a | Pay th => 0 <= th | Recv _ | Refresh | Cash => True end.
 Definition op_okb (o : op) : bool :=
-  match o with PutR a | PutT a => 0 <=? a | Pay th => 0 <=? th | Recv _ | Refresh => true end.
+  match o with PutR a | PutT a => 0 <=? a | Pay th => 0 <=? th | Recv _ | Refresh | Cash => true end.
